@@ -451,7 +451,7 @@ def case_hist(hist):
     retained = []          # (role, object, its model): objects an operation was applied to / that were passed in
     for op in ops:
         name = op[0]
-        last = name
+        last = name if name != "set-coords" else "set-coords-%s" % op[1]
         t += 1
         mshape = model.shape[:model.ndim - len(ush)]
         if name not in ("setitem", "queries", "set-coords"):
